@@ -61,7 +61,7 @@ pub fn silence_panics() {
             let f = l.file();
             if f.starts_with("src/") && !f.contains("buf/") && !f.starts_with("src/bytes") && !f.starts_with("src/lib.rs") {
                 let msg = info.payload().downcast_ref::<&str>().map(|s| s.to_string()).or_else(|| info.payload().downcast_ref::<String>().cloned()).unwrap_or_default();
-                if !msg.contains("(scripted)") && !msg.contains("chunk_mut() empty") {
+                if !msg.contains("(scripted)") && !msg.contains("chunk_mut() empty") && !msg.contains("past the end of a UserBuf") {
                     eprintln!("harness panic at {}:{}: {}", f, l.line(), msg);
                 }
             }
